@@ -4,8 +4,8 @@ proof:   EpsieProps/C14.lean (partial: exact-arithmetic invariants and bounds; I
          predicate `Representable`): C14_retry_bound(_monotone/_scale), C14_accept_mass_le, C14_ss_bounded,
          C14_ss_never_raises, C14_veitch_bounded, C14_veitch_pos_partial, C14_at_loglambda_bounded,
          C14_at_shape_admissible, C14_at_scale_admissible, C14_eig_cov_admissible, C14_vmf_kappa_pos,
-         C14_vmf_no_raise_partial, C14_vmf_exact_never_raises, and the forced negative results
-         C14_at_stall_exact / C14_at_stall_witness / C14_vmf_overflow_witness
+         C14_vmf_no_raise, C14_vmf_logkappa_bounded, C14_vmf_logkappa_representable, C14_vmf_exact_never_raises,
+         and C14_at_stall_exact / C14_at_stall_witness / C14_vmf_norm_underflow_witness
 tie:     suite `adapt` (values of every scale attribute, raises included) + draws per jump counted by a
          counting wrapper around the generator
 search:  real runs of every adaptive class and variant on flat / needle-like / smooth targets with bounded
@@ -23,13 +23,29 @@ from epsie.proposals.solid_angle import IsotropicSolidAngle
 
 
 def representable_probe():
-    """The representability predicate of C14_vmf_no_raise_partial on the real numpy:
-    the normalisation is > 0 for kappa <= 707 (and is 0 from ~707.95 on)."""
-    ks = numpy.concatenate([10.0 ** numpy.arange(-300, 2.0, 7.0), numpy.linspace(1, 707, 400)])
-    bad = [float(k) for k in ks if not IsotropicSolidAngle._normalisation(k) > 0]
+    """What the theorems assume of IEEE arithmetic, probed on the real numpy:
+    `exp(lk)` is positive and finite on `Representable lk := -745 < lk < 709`; for every finite
+    kappa > 0 the normalisation evaluates to a number >= 0 (never NaN, never negative) and the
+    log-normalisation the density uses is finite."""
+    bad = []
+    for lk in numpy.concatenate([numpy.linspace(-744.9, 708.9, 600), [-744.99, 708.99]]):
+        v = float(numpy.exp(lk))
+        if not (v > 0 and numpy.isfinite(v)):
+            bad.append('exp(%r) = %r' % (float(lk), v))
+    ks = numpy.concatenate([10.0 ** numpy.arange(-320, 309, 4.0), numpy.linspace(1, 720, 500),
+                            [5e-324, 707.94, 707.95, 1e308]])
+    lognorm = getattr(IsotropicSolidAngle, '_lognormalisation', None)
     first_zero = None
+    for k in ks:
+        if not k > 0:
+            continue
+        nm = IsotropicSolidAngle._normalisation(k)
+        if not nm >= 0:
+            bad.append('normalisation(%r) = %r' % (float(k), float(nm)))
+        if lognorm is not None and not numpy.isfinite(lognorm(k)):
+            bad.append('lognormalisation(%r) = %r' % (float(k), float(lognorm(k))))
     for k in numpy.arange(707.0, 712.0, 0.01):
-        if not IsotropicSolidAngle._normalisation(k) > 0:
+        if IsotropicSolidAngle._normalisation(k) == 0:
             first_zero = float(k)
             break
     return bad, first_zero
@@ -51,7 +67,7 @@ def run(chk, tier, proof_ok):
     c['search'] = dict(scov, oracle='scale attributes finite and admissible (widths > 0, covariance PSD, kappa > 0); '
                        'no exception from Chain.step(); generator draws per jump within the budget '
                        '(<= 1e5 in one jump, mean <= 1e3 over every 100-step block)',
-                       representable={'kappa<=707 with normalisation<=0': bad, 'first kappa with normalisation 0': first_zero})
+                       representable={'violations of the IEEE assumptions': bad, 'first kappa with normalisation 0': first_zero})
     c['evaluations'] = cov['steps'] + scov['steps']
     c['distinct_nontrivial'] = cov['cases'] - cov['divergences'] + scov['runs']
     c['rule'] = ('one evaluation = one real Chain.step() with the scale attributes read (correspondence) or the '
@@ -59,14 +75,15 @@ def run(chk, tier, proof_ok):
                  'start, seed) tuples generated from VERIF_SEED; every run is at least as long as its window')
     c['branches'] = cov['branches']
     chk.assumptions += [
-        'partial: the theorems are about the exact-arithmetic recursions; IEEE overflow enters only through '
-        '`Representable kappa := kappa <= 707` (probed on the real numpy in this run)',
+        'partial: the theorems are about the exact-arithmetic recursions; IEEE arithmetic enters only through '
+        '`Representable lk := -745 < lk < 709` (exp positive and finite) and "the normalisation of a finite '
+        'positive kappa evaluates to a number >= 0" (both probed on the real numpy in this run)',
         'the standard normal cdf is symmetric and concave on [0, inf) (hypotheses of C14_retry_bound)',
         'acceptance ratios recorded by a chain lie in [0,1] (C08_ar_unit)',
     ]
     if bad:
         findings['representable-predicate'] = (
-            'numpy evaluates kappa/(4 pi sinh kappa) to a non-positive number at kappa = %r <= 707' % bad[:3],
+            'the IEEE assumptions of C14_vmf_no_raise / C14_vmf_logkappa_representable fail on this numpy: %r' % bad[:3],
             {'family': 'adaptive_isotropic_solid_angle', 'T': 0, 'nsteps': 0})
     for key, (text, case) in sorted(findings.items()):
         chk.violation(key, text, {'case': case if case.get('nsteps') else None, 'search': 'usability',
